@@ -1,6 +1,7 @@
 (* C07: shared definitions *)
 From Coq Require Import Reals ZArith List.
 From PyLib Require Import PyVal Ideal.
+From Gen Require Import M_base M_Angle M_Epoch.
 Import ListNotations.
 Open Scope R_scope.
 
@@ -8,3 +9,7 @@ Open Scope R_scope.
 Definition ep (jde : R) : val R := VObj cEpoch [VFloat jde].
 (* time in Julian millennia from J2000.0, as vsop_pos computes it *)
 Definition tmil (jde : R) : R := (jde - Rlit 24515450 (-1)) / Rlit 3652500 (-1).
+
+(* the module constant JDE2000 = Epoch(2000, 1, 1.5): used as a hypothesis by C07_elem.v (its evaluation
+   through the whole constructor in real arithmetic takes minutes: C07_jde2000.v, thorough tier) *)
+Definition JDE2000_is_2451545 : Prop := g_JDE2000 Rops = VObj cEpoch [VFloat 2451545].
